@@ -119,7 +119,8 @@ func (l *Lexer) readLeadingComments() {
 				l.hadNewlineBefore = true
 				l.ReadChar()
 			}
-			l.leadingComments = append(l.leadingComments, strings.TrimRight(comment.String(), " "))
+			// the carriage return of a CRLF line end is not comment text
+			l.leadingComments = append(l.leadingComments, strings.TrimRight(comment.String(), " \r"))
 		}
 
 		if !isWhitespace(l.CurrentChar) {
